@@ -34,22 +34,11 @@ EVALUATED = [
             (value matches Evaluated::Number(x) && x.val() != 0real) ==> r == Err::<Amount, EvalError>(EvalError::AmountRequired),   // @Evaluated.into_amount.rejects_bare_number
 """),
     U("TryFrom<Evaluated> for PostingAmount", EV, [r"impl<'ctx> TryFrom<Evaluated<'ctx>> for PostingAmount<'ctx>"], fn="try_from",
-      rewrites=[RET()],
-      contract="""
-        ensures
-            (value matches Evaluated::Number(x) && x.val() != 0real) ==> r is Err,                               // @Evaluated.into_posting_amount.rejects_bare_number
-            (value matches Evaluated::Number(x) && x.val() == 0real) ==> r == Ok::<PostingAmount, EvalError>(PostingAmount::Zero),
-            value matches Evaluated::Commodities(a) ==> r == (if a.ncomm() == 0 { Ok::<PostingAmount, EvalError>(PostingAmount::Zero) }
-                else if a.ncomm() == 1 { Ok(PostingAmount::Single(a.single_entry())) } else { Err(EvalError::PostingAmountRequired) }),   // @Evaluated.into_posting_amount.at_most_one_commodity
-"""),
+      rewrites=[("R20-into-to-from", "let amount: Amount = value.try_into()?;", "let amount: Amount = Amount::try_from(value)?;", 1),
+                ("R20-into-to-from", "amount.try_into()", "PostingAmount::try_from(amount)", 1)]),
     U("TryFrom<Evaluated> for SingleAmount", EV, [r"impl<'ctx> TryFrom<Evaluated<'ctx>> for SingleAmount<'ctx>"], fn="try_from",
-      rewrites=[RET()],
-      contract="""
-        ensures
-            value is Number ==> r is Err,                                                                        // @Evaluated.into_single_amount.rejects_number
-            value matches Evaluated::Commodities(a) ==> r == (if a.ncomm() == 1 { Ok::<SingleAmount, EvalError>(a.single_entry()) }
-                else { Err(EvalError::SingleAmountRequired) }),                                                  // @Evaluated.into_single_amount.exactly_one_commodity
-"""),
+      rewrites=[("R20-into-to-from", "let amount: Amount = value.try_into()?;", "let amount: Amount = Amount::try_from(value)?;", 1),
+                ("R20-into-to-from", "amount.try_into()", "SingleAmount::try_from(amount)", 1)]),
     U("From<Decimal> for Evaluated", EV, [r"impl From<Decimal> for Evaluated<'_>"]),
     U("From<Amount> for Evaluated", EV, [r"impl<'ctx> From<Amount<'ctx>> for Evaluated<'ctx>"]),
     U("Evaluated::from_expr_amount_mut", EV, [r"impl<'ctx> Evaluated<'ctx>", r"pub\(super\) fn from_expr_amount_mut\b"], fn="from_expr_amount_mut", wrap=IMPL_EV,
